@@ -177,3 +177,150 @@ Section EntryTotal.
     destruct (ParseError H dec a revertData) as [[[e cv]|]| |]; cbn [bind]; congruence.
   Qed.
 End EntryTotal.
+
+(* ------------------------------------------------------------------------------------------------
+   the trees returned by the event and revert entry points can be serialised as well
+   ------------------------------------------------------------------------------------------------ *)
+From FFS Require Import Abi.SerModel Abi.DecTotalProofs2.
+
+Section EntrySerializable.
+  Variable H : bytes -> bytes.
+
+  Notation dec := DecModel.DecodeABIData.
+  Notation dece := DecModel.decode_elementary.
+
+  Lemma topicToValue_ser_ok topic tc v : tc_wf tc = true -> topicToValue dece topic tc = Ok v -> ser_ok v = true.
+  Proof.
+    intros Hw. apply tc_wf_ser_valid in Hw.
+    destruct tc as [e s m n k| | |]; cbn [topicToValue].
+    - destruct (fixed32 e).
+      + intros E. eapply decode_elementary_ser_ok; eauto.
+      + intros E; injection E as <-. reflexivity.
+    - intros E; injection E as <-. reflexivity.
+    - intros E; injection E as <-. reflexivity.
+    - intros E; injection E as <-. reflexivity.
+  Qed.
+
+  Definition slots_ok (slots : list (option cval)) : Prop :=
+    Forall (fun s => match s with Some v => ser_ok v = true | None => True end) slots.
+
+  Lemma topic_phase_ser_ok (l : ins) : Forall (fun c => tc_wf c = true) (map fst l) ->
+    forall tps slots, topic_phase dece l tps = Ok slots -> slots_ok slots.
+  Proof.
+    induction l as [|[tc [|]] r IH]; intros Hf tps slots; cbn [topic_phase].
+    - intros E; injection E as <-. constructor.
+    - cbn [map fst] in Hf. inversion Hf as [|? ? H1 H2]; subst.
+      destruct tps as [|t ts]; [discriminate|].
+      destruct (topicToValue dece t tc) as [v| |] eqn:Ev; cbn [bind]; try discriminate.
+      destruct (topic_phase dece r ts) as [rest| |] eqn:Er; cbn [bind]; try discriminate.
+      intros E; injection E as <-. constructor; [eapply topicToValue_ser_ok; eauto|eapply IH; eauto].
+    - cbn [map fst] in Hf. inversion Hf as [|? ? H1 H2]; subst.
+      destruct (topic_phase dece r tps) as [rest| |] eqn:Er; cbn [bind]; try discriminate.
+      intros E; injection E as <-. constructor; [exact I|eapply IH; eauto].
+  Qed.
+
+  Lemma merge_ser_ok slots : slots_ok slots -> forall vs, forallb ser_ok vs = true ->
+    (n_free slots <= length vs)%nat -> forallb ser_ok (merge slots vs) = true.
+  Proof.
+    induction 1 as [|[v|] r Hs Hr IH]; intros vs Hv Hn; cbn [merge]; [reflexivity| |].
+    - cbn [forallb]. rewrite Hs. apply IH; auto.
+    - unfold n_free in Hn. cbn [filter length] in Hn.
+      destruct vs as [|d ds]; [cbn [length] in Hn; lia|].
+      cbn [forallb] in *. apply andb_true_iff in Hv as [H1 H2]. rewrite H1. apply IH; auto.
+      cbn [length] in Hn. unfold n_free. lia.
+  Qed.
+
+  Theorem DecodeEventData_ser_ok e topics data x :
+    params_wf (e_inputs e) -> DecodeEventData H dec dece e topics data = Ok x -> ser_ok x = true.
+  Proof.
+    intros Hw. rewrite DecodeEventData_spec. unfold event_spec.
+    destruct (tree_children (e_inputs e)) as [cs| |] eqn:Ec; cbn [bind]; try discriminate.
+    pose proof (tree_children_wf _ _ Hw Ec) as Hcs.
+    destruct (sig_topic_guard H e topics) as [tix| |]; cbn [bind]; try discriminate.
+    set (l := zip_inputs cs (e_inputs e)).
+    assert (Hl : Forall (fun c => tc_wf c = true) (map fst l)).
+    { apply Forall_forall. intros y Hy. rewrite Forall_forall in Hcs. apply Hcs. eapply zip_inputs_fst_in; eauto. }
+    destruct (topic_phase dece l (skipn tix topics)) as [slots| |] eqn:Et; cbn [bind]; try discriminate.
+    pose proof (topic_phase_ser_ok l Hl _ _ Et) as Hso.
+    destruct (topic_phase_shape _ _ _ _ Et) as (_ & Hfree & _).
+    destruct (0 <? length (data_args l))%nat eqn:E0.
+    - assert (Hd : tc_wf (TCTuple (data_args l) []) = true).
+      { apply tc_wf_tuple. apply Forall_forall. intros y Hy. rewrite Forall_forall in Hl. apply Hl, data_args_in, Hy. }
+      destruct (dec (TCTuple (data_args l) []) data 0%Z) as [dv| |] eqn:Ed; cbn [bind]; try discriminate.
+      pose proof (DecodeABIData_ser_ok _ _ _ _ Hd Ed) as Hdv.
+      destruct dv as [|c vs g]; [discriminate|].
+      rewrite (DecModel_decode_len _ _ _ _ _ _ _ Ed), Nat.leb_refl. cbn [bind].
+      intros E; injection E as <-. cbn [ser_ok].
+      assert (Hc : c = Some (TCTuple (data_args l) [])).
+      { unfold DecModel.DecodeABIData, DecModel.walkTupleABIBytes in Ed.
+        destruct (DecModel.walkDynamicChildArrayABIBytes data (data_args l) 0 0) as [[rd0 l0]| |]; cbn [bind] in Ed; try discriminate.
+        injection Ed as <- _ _. reflexivity. }
+      subst c. cbn [ser_ok] in Hdv.
+      apply merge_ser_ok; auto. rewrite Hfree, (DecModel_decode_len _ _ _ _ _ _ _ Ed). lia.
+    - cbn [bind]. intros E; injection E as <-. cbn [ser_ok].
+      apply merge_ser_ok; auto. apply Nat.ltb_ge in E0. cbn [length]. lia.
+  Qed.
+
+  Theorem Entry_DecodeCallData_ser_ok e b x :
+    params_wf (e_inputs e) -> EntryModel.DecodeCallData H dec e b = Ok x -> ser_ok x = true.
+  Proof.
+    intros Hw. unfold EntryModel.DecodeCallData.
+    destruct (GenerateFunctionSelector H e) as [id| |]; cbn [bind]; try discriminate.
+    destruct (length b <? 4)%nat; [discriminate|].
+    destruct (slice b 0 4) as [b4| |]; cbn [bind]; try discriminate.
+    destruct (negb (bytes_eqb id b4)); [discriminate|].
+    unfold DecodeABIData_params, TypeComponentTree.
+    destruct (tree_children (e_inputs e)) as [cs| |] eqn:Ec; cbn [bind]; try discriminate.
+    apply DecodeABIData_ser_ok. apply tc_wf_tuple. eapply tree_children_wf; eauto.
+  Qed.
+
+  Theorem ParseError_ser_ok (a : list entry) revertData e x :
+    (forall e, In e a -> params_wf (e_inputs e)) ->
+    ParseError H dec a revertData = Ok (Some (e, x)) -> ser_ok x = true.
+  Proof.
+    intros Hw. unfold ParseError.
+    assert (Hall : forall e, In e (default_error :: a) -> params_wf (e_inputs e)).
+    { intros e0 [<-|He]; [|auto]. intros p tc [<-|[]] E. cbn in E. injection E as <-. reflexivity. }
+    clear Hw. induction (default_error :: a) as [|e0 r IH]; cbn [parse_error_loop]; [discriminate|].
+    assert (Hr : parse_error_loop H dec r revertData = Ok (Some (e, x)) -> ser_ok x = true)
+      by (apply IH; intros e' He'; apply Hall; right; exact He').
+    destruct (etype_eqb (e_type e0) TyError); auto.
+    destruct (EntryModel.DecodeCallData H dec e0 revertData) as [cv| |] eqn:Ed; auto; try discriminate.
+    intros E; injection E as <- <-. eapply Entry_DecodeCallData_ser_ok; eauto. apply Hall. left. reflexivity.
+  Qed.
+End EntrySerializable.
+
+(* the statements used by Properties/C11.v *)
+Theorem event_tree_serializable :
+  forall (H : bytes -> bytes) (e : entry) (topics : list bytes) (data : bytes) (x : cval),
+    params_wf (e_inputs e) ->
+    DecodeEventData H DecModel.DecodeABIData DecModel.decode_elementary e topics data = Ok x ->
+    forall (H' : bytes -> bytes) (fs : bfloat -> jv) (dn : nat -> bytes) (s : serializer),
+      SerializeJSON H' fs dn s x <> Panic /\ SerializeInterface H' fs dn s x <> Panic.
+Proof.
+  intros H e topics data x Hw Hd H' fs dn s.
+  pose proof (walkOutput_total H' fs dn s x (DecodeEventData_ser_ok H e topics data x Hw Hd)) as Hn.
+  unfold SerializeJSON, SerializeInterface. split; auto. destruct (walkOutput H' fs dn s x); cbn [bind]; congruence.
+Qed.
+
+Theorem revert_tree_serializable :
+  forall (H : bytes -> bytes) (a : list entry) (revertData : bytes) (e : entry) (x : cval),
+    (forall e, In e a -> params_wf (e_inputs e)) ->
+    ParseError H DecModel.DecodeABIData a revertData = Ok (Some (e, x)) ->
+    forall (H' : bytes -> bytes) (fs : bfloat -> jv) (dn : nat -> bytes) (s : serializer),
+      SerializeJSON H' fs dn s x <> Panic /\ SerializeInterface H' fs dn s x <> Panic.
+Proof.
+  intros H a rd e x Hw Hd H' fs dn s.
+  pose proof (walkOutput_total H' fs dn s x (ParseError_ser_ok H a rd e x Hw Hd)) as Hn.
+  unfold SerializeJSON, SerializeInterface. split; auto. destruct (walkOutput H' fs dn s x); cbn [bind]; congruence.
+Qed.
+
+Theorem revert_total :
+  forall (H : bytes -> bytes), (forall x, length (H x) = 32%nat) ->
+  forall (format_args : cval -> option (list bytes)) (a : list entry) (revertData : bytes),
+    (forall e, In e a -> params_wf (e_inputs e)) ->
+    ParseError H DecModel.DecodeABIData a revertData <> Panic /\
+    ErrorString H DecModel.DecodeABIData format_args a revertData <> Panic.
+Proof.
+  intros H HH fa a rd Hw. split; [apply ParseError_total|apply ErrorString_total]; assumption.
+Qed.
